@@ -31,7 +31,7 @@ func c12Gen(r *RNG, id string) *Case {
 		return reordGen(r, id)
 	}
 	kinds := []string{"snps", "snps-agg", "variants", "variants-agg", "variants-gff-shared", "toma", "topa-dir", "topa-stdout", "samvariants", "samvariants-agg",
-		"closest", "closest-n", "list", "topranking", "topranking-push", "topranking-csv"}
+		"closest", "closest-n", "list", "topranking", "topranking-push", "topranking-csv", "topranking-ignore"}
 	kind := kinds[r.Intn(len(kinds))]
 	c := NewCase("REL", id)
 	c.Set("rel", "allsame").Set("relkind", "c12").Set("cmd", kind)
@@ -212,6 +212,26 @@ func execC12(c *Case) {
 		tc.SetInt("distall", 0).SetInt("distup", 0).SetInt("distdown", 0).SetInt("distside", 0).SetInt("distpush", 0)
 		if kind == "topranking-push" {
 			tc.SetInt("sizetotal", 0).SetInt("distpush", 2)
+		}
+		tc.Set("via", "")
+		if kind == "topranking-ignore" {
+			// several queries (one goroutine each) sharing one long, unsorted --ignore list
+			qn, qs := splitNames(tc.Get("qnames")), strings.Split(tc.Get("qseqs"), ",")
+			for len(qn) < 6 {
+				qn = append(qn, fmt.Sprintf("Qx%d", len(qn)))
+				qs = append(qs, qs[len(qs)%len(qs)])
+			}
+			tc.Set("qnames", strings.Join(qn, ",")).Set("qseqs", strings.Join(qs, ","))
+			tn := splitNames(tc.Get("tnames"))
+			var ign []string
+			for k := 0; k < 400; k++ {
+				if k%3 == 0 {
+					ign = append(ign, tn[r.Intn(len(tn))])
+				} else {
+					ign = append(ign, fmt.Sprintf("absent_%d", r.Intn(100000)))
+				}
+			}
+			tc.Set("ignore", strings.Join(ign, ","))
 		}
 		q, t := trInputs(tc)
 		qt, tt := "fasta", "fasta"
